@@ -46,6 +46,7 @@ pub fn format(
         }
     }
 
+    open_structure_remove_range.sort_by_key(|r| r.start);
     merge_ranges(&mut ranges, open_structure_remove_range);
     merge_overlapped_ranges(&mut ranges);
 
